@@ -111,6 +111,7 @@ class Tree:
         if not os.environ.get('VERIF_NO_CANON'):
             from . import canon
             ref = canon.load_reference()
+            canon.normalise_calls({rel: mod.tree for rel, mod in self.modules.items()})
             for rel, mod in self.modules.items():
                 canon.normalise_module(mod.tree)
                 got = canon.apply_to_module(mod.tree, ref.get(rel))
